@@ -138,8 +138,6 @@ EXPORT errno_t _mbsrtowcs_s_chk(size_t *restrict retvalp,
     CHK_SRC_NULL("mbsrtowcs_s", retvalp)
     *retvalp = 0;
     CHK_SRC_NULL("mbsrtowcs_s", ps)
-    CHK_SRCW_NULL_CLEAR("mbsrtowcs_s", srcp)
-    CHK_SRCW_NULL_CLEAR("mbsrtowcs_s", *srcp)
     if (dest) {
         size_t destsz = dmax * sizeof(wchar_t);
         CHK_DMAX_ZERO("mbsrtowcs_s")
@@ -174,6 +172,17 @@ EXPORT errno_t _mbsrtowcs_s_chk(size_t *restrict retvalp,
             }
 #endif
         }
+    }
+    /* after dest and dmax are known to be usable: dest may be null */
+    if (unlikely(srcp == NULL || *srcp == NULL)) {
+        if (dest) {
+            handle_werror(dest, dmax, "mbsrtowcs_s: srcp/*srcp is null",
+                          ESNULLP);
+        } else {
+            invoke_safe_str_constraint_handler(
+                "mbsrtowcs_s: srcp/*srcp is null", NULL, ESNULLP);
+        }
+        return RCNEGATE(ESNULLP);
     }
     if (unlikely((char *)dest == (char *)srcp ||
                  (char *)dest == (char *)*srcp)) {
